@@ -576,9 +576,9 @@ class FuncGen:
         raise AssertionError(k)
 
 
-def build_program_module(rnd, profile, n_funcs=12, memory=True, table=True):
+def build_program_module(rnd, profile, n_funcs=12, memory=True, table=True, n_globals=4):
     """A module of n_funcs inner functions (+ exported int-only wrappers), a dump and scratch getter."""
-    c = ModCtx(rnd, profile, memory=memory)
+    c = ModCtx(rnd, profile, memory=memory, n_globals=n_globals)
     types = profile.types
     if table:
         c.mod.tables.append((16, 16))
